@@ -1,8 +1,9 @@
 (* C13 — colour quantisation: bounded palette, valid indices, exact nearest-colour search.
    Statements only; proofs in Image/{KDTreeProofs,OctreeProofs,QuantizeProofs}.v. *)
-From Coq Require Import List NArith ZArith Bool.
+From Coq Require Import List NArith ZArith Bool Lia ZifyNat ZifyN.
 From SNT Require Import Base.Outcome Image.KDTree Image.Octree Image.Quantize
-     Image.KDTreeProofs Image.OctreeProofs Image.OctreeExact Image.QuantizeProofs Image.QuantizeExact.
+     Image.KDTreeProofs Image.OctreePath Image.OctreeProofs Image.OctreeExact Image.QuantizeProofs Image.QuantizeExact
+     Image.QuantizeDither.
 Import ListNotations.
 
 (* Nearest-colour lookup: for EVERY palette (any length >= 1, duplicates, clustered
@@ -14,9 +15,16 @@ Theorem C13_nearest : forall (pal : list rgb) (q : rgb),
 Proof. exact kd_nearest. Qed.
 
 (* the brute-force predicate evaluated on the implementation's answers is that notion *)
-Theorem C13_nearest_predicate : forall pal q i c,
+(* (auxiliary: ties the executable predicate to the notion above; not counted as an obligation) *)
+Lemma C13_nearest_predicate : forall pal q i c,
   is_nearestb pal q i c = true <-> is_nearest pal q i c.
 Proof. exact is_nearestb_spec. Qed.
+
+(* OcTreePath as coded (r,g,b packed in one u32, `& 0x808080`, `<< 1 & 0xfefefe`, shifts by
+   21/14/7) is, for EVERY colour, the lane-wise bit path the octree theorems reason about
+   (the model's insert uses the packed form). *)
+Theorem C13_octree_path : forall c, rgb_ok c = true -> path_packed c = path_of c.
+Proof. exact path_packed_eq. Qed.
 
 (* Octree pipeline of ColorPalette::from_image: for every non-empty list of byte
    colours and every requested size, insertion never panics, prune_until terminates
@@ -46,7 +54,8 @@ Theorem C13_quantize : forall (im : img) (k : N) (dither : bool),
 Proof. exact quantize_spec. Qed.
 
 (* index validity does not depend on what the error diffusion produced *)
-Theorem C13_index_any_query : forall pal q i c,
+(* (auxiliary consequence of C13_nearest) *)
+Lemma C13_index_any_query : forall pal q i c,
   kd_find (build pal) q = Ok (i, c) ->
   (i < N.of_nat (length pal))%N /\ nth_error pal (N.to_nat i) = Some c.
 Proof. exact kd_find_index. Qed.
@@ -72,6 +81,19 @@ Theorem C13_exact : forall (im : img) (k : N) (dither : bool),
     Forall2 (Forall2 (fun p i => nth_error pal (N.to_nat i) = Some p)) im q.
 Proof. exact quantize_exact. Qed.
 
+(* Floyd-Steinberg slots stay within 255.0 (4080 sixteenths): one row of the dithered loop
+   carries the slot invariant from column to column whenever look-ups return byte colours;
+   `swap_slots`/`initial_slots` re-establish it between rows.  This is what makes every f32
+   operation of the code exact, i.e. what justifies modelling the errors in Z sixteenths. *)
+Theorem C13_dither_slots : forall (find : rgb -> outcome (N * rgb)),
+  (forall q i c, find q = Ok (i, c) -> rgb_ok c = true) ->
+  forall px col cur nxt ixs cur' nxt',
+    Forall (fun c => rgb_ok c = true) px ->
+    slots_ok col cur nxt ->
+    quant_row find true col px cur nxt = Ok (ixs, cur', nxt') ->
+    slots_ok (col + length px) cur' nxt'.
+Proof. exact quant_row_slots. Qed.
+
 Check C13_nearest : forall (pal : list rgb) (q : rgb), pal <> [] ->
   exists i c, kd_find (build pal) q = Ok (i, c) /\ is_nearest pal q i c.
 
@@ -91,6 +113,30 @@ Example C13_exact_nonvacuous :
   (distinct_colors [[(1,2,3); (200,2,3)]; [(1,2,3); (7,7,7)]]%N <= N.max 2 8)%N /\
   (sample_of [[(1,2,3); (200,2,3)]; [(1,2,3); (7,7,7)]]%N 2 < 2)%N.
 Proof. split; [apply N.leb_le; vm_compute; reflexivity|apply N.ltb_lt; vm_compute; reflexivity]. Qed.
+
+(* requested sizes above usize::MAX / 100 (the product `palette_size * 100` saturates) *)
+Example C13_huge_size_nonvacuous :
+  quantize [[(1,2,3); (200,2,3)]; [(1,2,3); (7,7,7)]]%N 4611686018427387904 true
+  = Ok ([(1,2,3); (7,7,7); (200,2,3)]%N, [[0; 2]; [0; 1]]%N) /\
+  (sample_of [[(1,2,3); (200,2,3)]; [(1,2,3); (7,7,7)]]%N 368934881474191033 < 2)%N.
+Proof. split; [vm_compute; reflexivity|apply N.ltb_lt; vm_compute; reflexivity]. Qed.
+
+(* the sub-sampled branch: 14 x 15 pixels requested in one colour (sample factor 2) *)
+Example C13_sampled_nonvacuous :
+  let im := map (fun y => map (fun x => (N.of_nat (17 * x), N.of_nat (9 * y), 3%N)) (seq 0 15)) (seq 0 14) in
+  img_ok im /\ (2 <= sample_of im 1)%N /\
+  match quantize im 1 false with Ok (pal, q) => (length pal, length q) = (8%nat, 14%nat) | _ => False end.
+Proof.
+  cbv zeta. split; [|split].
+  - split; [intros H; vm_compute in H; discriminate|]. split; [vm_compute; discriminate|].
+    split; [vm_compute; reflexivity|].
+    apply Forall_forall. intros r Hr. apply in_map_iff in Hr. destruct Hr as (y & <- & Hy).
+    apply Forall_forall. intros p Hp. apply in_map_iff in Hp. destruct Hp as (x & <- & Hx).
+    apply in_seq in Hy. apply in_seq in Hx. unfold px_ok, rgb_ok.
+    apply andb_true_iff; split; [apply andb_true_iff; split|]; apply N.ltb_lt; lia.
+  - apply N.leb_le. vm_compute. reflexivity.
+  - vm_compute. reflexivity.
+Qed.
 
 Example C13_quantize_nonvacuous :
   img_ok [[(1,2,3); (200,2,3)]; [(1,2,3); (7,7,7)]]%N /\
